@@ -70,6 +70,21 @@ impl Files {
     fn new() -> Self {
         let n = CASE_NO.fetch_add(1, Ordering::SeqCst);
         let base = if std::path::Path::new("/dev/shm").is_dir() { std::path::PathBuf::from("/dev/shm") } else { std::env::temp_dir() };
+        if n == 0 {
+            // scratch directories of harness processes that died (crash / hang kill) are removed by the next process
+            if let Ok(rd) = std::fs::read_dir(&base) {
+                for e in rd.flatten() {
+                    let name = e.file_name().to_string_lossy().to_string();
+                    if let Some(rest) = name.strip_prefix("verif-c12-") {
+                        if let Some(pid) = rest.split('-').next() {
+                            if !std::path::Path::new(&format!("/proc/{}", pid)).exists() {
+                                let _ = std::fs::remove_dir_all(e.path());
+                            }
+                        }
+                    }
+                }
+            }
+        }
         let dir = base.join(format!("verif-c12-{}-{}", std::process::id(), n));
         std::fs::create_dir_all(&dir).expect("tmp dir");
         let term = lbd::TERM_MIN_LENGTH;
